@@ -7,8 +7,9 @@ import MaltModel.Conv.Tmpl
   Load context becomes `ag__.ld(name)`.  Store/Del names and generated names are untouched.
 * `visit_Delete`: `generic_visit`, then every plain-Name target `x` becomes `x = ag__.Undefined('x')`
   (all of them first), followed by one `del` of the remaining (composite) targets, if any.
-* `visit_AugAssign` with a Name target: `x = ag__.ld(x)` followed by the ORIGINAL statement — no
-  `generic_visit`, the right-hand side is not visited; other targets: `generic_visit`.
+* `visit_AugAssign` with a Name target (since fix a695737): the VALUE is visited first
+  (`node.value = self.visit(node.value)`), then `x = ag__.ld(x)` followed by the statement (target itself
+  not visited); other targets: `generic_visit`.
 -/
 namespace Malt.Conv.Variables
 open Malt.Py Malt.Conv
@@ -41,17 +42,18 @@ def postS : Stmt → List Stmt
         undefAssigns names ++ (if rest.isEmpty then [] else [.delete 0 rest])
   | s => [s]
 
-def preS : Stmt → Option (List Stmt)
+def hooks (hasOrig : Nat → Bool) : Hooks := { post := postE hasOrig }
+
+def preS (hasOrig : Nat → Bool) : Stmt → Option (List Stmt)
   | .augAssign i (.name j s c) op v =>
-      some [.assign 0 [.name j s .store] (ld (.name j s .load)), .augAssign i (.name j s c) op v]
+      some [.assign 0 [.name j s .store] (ld (.name j s .load)), .augAssign i (.name j s c) op (mapE (hooks hasOrig) v)]
   | _ => none
 
-def hooks (hasOrig : Nat → Bool) : Hooks := { post := postE hasOrig }
-def shooks : SHooks := { pre := preS, post := postS }
+def shooks (hasOrig : Nat → Bool) : SHooks := { pre := preS hasOrig, post := postS }
 
 def visitE (hasOrig : Nat → Bool) (e : Expr) : Expr := mapE (hooks hasOrig) e
-def visitS (hasOrig : Nat → Bool) (s : Stmt) : List Stmt := mapS (hooks hasOrig) shooks s
-def visitB (hasOrig : Nat → Bool) (b : List Stmt) : List Stmt := mapB (hooks hasOrig) shooks b
+def visitS (hasOrig : Nat → Bool) (s : Stmt) : List Stmt := mapS (hooks hasOrig) (shooks hasOrig) s
+def visitB (hasOrig : Nat → Bool) (b : List Stmt) : List Stmt := mapB (hooks hasOrig) (shooks hasOrig) b
 
 def hasOrigTable (t : AnnoTable) (i : Nat) : Bool := t.has i "orig_defs"
 
